@@ -81,8 +81,76 @@ def con(i: int, j: int, k: int, mp: bool) -> bool:
     return hs.run_path(_con_body, (i, j, k, mp), corner=lambda i, j, k, mp: j == NI - 1 and k == NI - 1 and mp)
 
 
-TXT_GRAMMARS = ['lines', 'nlvia', 'dotall', 'collide', 'letx', 'nulltxt', 'prefalt', 'kw']
-TXT_K = {'lines': 8, 'nlvia': 8, 'dotall': 7, 'collide': 5, 'letx': 9, 'nulltxt': 6, 'prefalt': 4, 'kw': 14}
+# grammar templates shared with C02 (all of which Earley must handle): symbolic template indices, realised construction
+if P and P.get('kind') == 'gtpl':
+    import itertools
+    from lark import Lark
+    from lark.exceptions import GrammarError, UnexpectedInput
+    from vfw.harness import c02
+    from vfw.refsem import cfg as _cfg
+    TPL = P['tpl']
+    LG = P['L']
+    LEXG = hs.make_list_lexer(['T1', 'T2'])
+    INPUTS_G = [list(w) for n in range(LG + 1) for w in itertools.product(range(2), repeat=n)]
+    PIN_G = P.get('pin')
+
+
+def _gtpl_body(rec, a, b, c, d, order):
+    if TPL == 'tab':
+        pool = P['pool']
+        a = hs.sel(a, pool - 1)
+        b = a + 1 + hs.sel(b, pool - 1 - a)
+        c = hs.sel(c, pool - 1)
+        d = c + 1 + hs.sel(d, pool - 1 - c)
+        g = c02._template_grammar(a, b, c, d)
+        key = [a, b, c, d]
+    else:
+        a = hs.sel(a, len(c02.S_POOL))
+        b = hs.sel(b, len(c02.A_POOL))
+        c = hs.sel(c, len(c02.B_POOL))
+        d = hs.sel(d, len(c02.C_POOL))
+        order = hs.sel(order, 2)
+        g = c02._chain_grammar(a, b, c, d, order)
+        key = [a, b, c, d, order]
+    with hs.untraced():
+        rec['key'] = key
+        rec['nontrivial'] = True
+        bnf = _cfg.BNF(g)
+        with hs.watchdog(20):
+            try:
+                lk = Lark(g.render(), parser='earley', lexer=LEXG)
+            except GrammarError as e:
+                if 'used but not defined' in str(e) or 'Rules defined twice' in str(e):
+                    rec['count'] = {'grammars_not_constructible': 1}
+                    return True
+                raise
+        n_acc = 0
+        for w in INPUTS_G:
+            kinds = ['T1' if i == 0 else 'T2' for i in w]
+            want = _cfg.member(bnf, _cfg.TokenInput(kinds))
+            with hs.watchdog(10):
+                try:
+                    lk.parse(w)
+                    got = True
+                except UnexpectedInput:
+                    got = False
+            n_acc += int(got)
+            if got != want:
+                return hs.fail(rec, 'Earley %s a %s' % ('accepts' if got else 'rejects', 'non-sentence' if got else 'sentence'), grammar=g.render(), kinds=kinds)
+        rec['count'] = {'grammars': 1, 'inputs': len(INPUTS_G), 'accepted': n_acc}
+    return True
+
+
+def gtpl(a: int, b: int, c: int, d: int, order: int) -> bool:
+    """
+    pre: PIN_G is None or a == PIN_G
+    post: _
+    """
+    return hs.run_path(_gtpl_body, (a, b, c, d, order))
+
+
+TXT_GRAMMARS = ['lines', 'nlvia', 'dotall', 'collide', 'letx', 'nulltxt', 'prefalt', 'kw', 'ign2']
+TXT_K = {'ign2': 5, 'lines': 8, 'nlvia': 8, 'dotall': 7, 'collide': 5, 'letx': 9, 'nulltxt': 6, 'prefalt': 4, 'kw': 14}
 
 
 def plan(tier, seed):
@@ -106,6 +174,15 @@ def plan(tier, seed):
                 slices.append({'id': 'txt:%s:%s:L%d%s' % (g, lexer, Lt, '' if pin is None else ':pin%d' % pin), 'module': 'vfw.harness.txt',
                                'params': {'g': g, 'parser': 'earley', 'lexer': lexer, 'L': Lt, 'asserts': ['member'], 'pin': pin},
                                'timeout': int(est * 2.5 + 40), 'twin': pin in (None, k - 1), 'bound': {'chars': Lt, 'classes': k}})
+    pool = 7 if quick else 13
+    for pa in range(pool - 1):
+        slices.append({'id': 'gtpl:tab:pool%d:a%d' % (pool, pa), 'func': 'gtpl', 'mode': 'realised', 'twin': False,
+                       'params': {'kind': 'gtpl', 'tpl': 'tab', 'pool': pool, 'pin': pa, 'L': 4 if quick else 5}, 'timeout': 300 if quick else 2000,
+                       'bound': {'grammars': (pool - 1 - pa) * (pool * (pool - 1) // 2), 'input_tokens': 4 if quick else 5}})
+    for sa in range(4):
+        slices.append({'id': 'gtpl:chain:s%d' % sa, 'func': 'gtpl', 'mode': 'realised', 'twin': False,
+                       'params': {'kind': 'gtpl', 'tpl': 'chain', 'pin': sa, 'L': 4 if quick else 6}, 'timeout': 300 if quick else 2000,
+                       'bound': {'grammars': 96, 'input_tokens': 4 if quick else 6}})
     slices.append({'id': 'con:template', 'func': 'con', 'params': {'kind': 'con'}, 'timeout': 300, 'mode': 'realised',
                    'bound': {'grammars': 2 * len(ITEMS) ** 3}})
     meta = {
